@@ -54,6 +54,28 @@ assert os.path.realpath(_sched_mod.__file__).startswith(os.path.realpath(REPO)),
 _sched_mod.sim_time_check = lambda *a, **k: False
 logging.getLogger('cylc').setLevel(logging.CRITICAL)
 
+# -- additive instrumentation (C09/C10): every status change and every processed message is logged
+# into the live Run (observation keys "trans" and "msgs"); behaviour is unchanged.
+_CUR = None
+_orig_state_reset = TaskProxy.state_reset
+
+
+def _logged_state_reset(self, *a, **k):
+    old = self.state.status
+    ret = _orig_state_reset(self, *a, **k)
+    run = _CUR
+    if run is not None and self.state.status != old:
+        try:
+            run.trans.append([int(self.point), self.tdef.name, old, self.state.status,
+                              self.submit_num, run.msg_top, bool(self.transient),
+                              run.schd.pool._get_task_by_id(self.identity) is self])
+        except Exception:
+            pass
+    return ret
+
+
+TaskProxy.state_reset = _logged_state_reset
+
 
 # ---------------------------------------------------------------------------
 # expression strings -> JSON trees  ("a & (b | c)" / "a and (b or c)")
@@ -113,6 +135,11 @@ class Run:
         self.stop_reason = None
         self.schd = None
         self.fails = {}
+        self.msgs = []           # processed messages of the current op (C09/C10 judges)
+        self.trans = []          # status changes of the current op
+        self.msg_depth = 0
+        self.msg_top = -1
+        self.poll_reqs = []      # polls requested by the scheduler, to be answered (policy p_poll)
 
     # -- set up ------------------------------------------------------------
     async def start(self, restart=False):
@@ -122,6 +149,8 @@ class Run:
             (run_dir / 'flow.cylc').write_text(self.case['flow'])
         opts = dict(paused_start=False, run_mode='simulation')
         opts.update(self.case.get('opts') or {})
+        if restart:
+            opts.pop('startcp', None)       # not valid for a restart (restored from the DB)
         schd = Scheduler(self.id, RunOptions(**opts))
         self.schd = schd
         await schd.install()
@@ -148,7 +177,97 @@ class Run:
         self.polls = []
         tjm.poll_task_jobs = lambda itasks, msg=None: run.polls.extend(
             [int(t.point), t.tdef.name] for t in itasks)
+        self._instrument(schd)
+        self._instrument_pool(schd)
         return schd
+
+    # -- additive instrumentation for the C07 / C11S / C03 judges (extra observation keys
+    #    'adds', 'removed', 'stall_at'; the model does not predict them; behaviour unchanged)
+    def _snap_pool(self):
+        out = []
+        for itask in self.schd.pool.get_tasks():
+            out.append({
+                'p': int(itask.point), 'n': itask.tdef.name, 'st': itask.state.status,
+                'held': bool(itask.state.is_held), 'q': bool(itask.state.is_queued),
+                'rh': bool(itask.state.is_runahead), 'sn': itask.submit_num,
+                'out': sorted(t for t, _m, done in itask.state.outputs if done),
+                'pre': [sorted([int(str(k.point)), k.task, k.output, bool(v)] for k, v in pre.items())
+                        for pre in itask.state.prerequisites],
+            })
+        out.sort(key=lambda d: (d['p'], d['n']))
+        return out
+
+    def _instrument_pool(self, schd):
+        run = self
+        pool = schd.pool
+        self.adds, self.removed, self.stall_at = [], [], None
+        _add, _remove, _stalled = pool.add_to_pool, pool.remove, pool.is_stalled
+
+        def add_to_pool(itask, *a, **k):
+            run.adds.append([int(itask.point), itask.tdef.name])
+            return _add(itask, *a, **k)
+
+        def remove(itask, reason=None, *a, **k):
+            run.removed.append([
+                int(itask.point), itask.tdef.name, itask.state.status,
+                sorted(t for t, _m, done in itask.state.outputs if done), reason])
+            return _remove(itask, reason, *a, **k)
+
+        def is_stalled(*a, **k):
+            res = _stalled(*a, **k)
+            if res:
+                rl = pool.runahead_limit_point
+                run.stall_at = {'pool': run._snap_pool(), 'rl': None if rl is None else int(rl)}
+            return res
+        pool.add_to_pool, pool.remove, pool.is_stalled = add_to_pool, remove, is_stalled
+
+    def _instrument(self, schd):
+        """Log every process_message call (flag, message, state before/after, return value)."""
+        global _CUR
+        _CUR = self
+        run = self
+        tem = schd.task_events_mgr
+        orig = tem.process_message
+        flags = {tem.FLAG_INTERNAL: 'internal', tem.FLAG_RECEIVED: 'received', tem.FLAG_POLLED: 'polled'}
+
+        def snap(itask):
+            tries = []
+            for key in ('submission-retry', 'execution-retry'):     # TimerFlags
+                timer = itask.try_timers.get(key)
+                tries.append(0 if timer is None else int(timer.num))
+            return [itask.state.status, itask.submit_num,
+                    sorted(t for t, _m, done in itask.state.outputs if done), tries]
+
+        def pm(itask, severity, message, event_time=None, flag=tem.FLAG_INTERNAL,
+               submit_num=None, forced=False):
+            rec = None
+            try:
+                rec = {
+                    'p': int(itask.point), 'n': itask.tdef.name, 'fl': flags.get(flag, str(flag)),
+                    'sn': itask.submit_num if submit_num is None else submit_num, 'm': message,
+                    'd': run.msg_depth, 'tr': bool(itask.transient), 'forced': bool(forced),
+                    'in': schd.pool._get_task_by_id(itask.identity) is itask,
+                    'b': snap(itask), 'a': None, 'r': None}
+                if run.msg_depth == 0:
+                    run.msg_top = len(run.msgs)
+                run.msgs.append(rec)
+            except Exception:
+                rec = None
+            run.msg_depth += 1
+            try:
+                ret = orig(itask, severity, message, event_time, flag, submit_num, forced)
+            finally:
+                run.msg_depth -= 1
+                if run.msg_depth == 0:
+                    run.msg_top = -1
+            if rec is not None:
+                try:
+                    rec['a'] = snap(itask)
+                    rec['r'] = bool(ret)
+                except Exception:
+                    pass
+            return ret
+        tem.process_message = pm
 
     # -- observation ---------------------------------------------------------
     def observe(self, after_loop=False):
@@ -200,9 +319,22 @@ class Run:
             'rl': None if rl is None else int(rl),
             'book': book,
             'db': db,
+            'msgs': self.msgs,
+            'trans': self.trans,
+            'hold': {'tasks': sorted([int(pt), n] for n, pt in tp.tasks_to_hold),
+                     'point': None if tp.hold_point is None else int(tp.hold_point)},
+            'stop_point': None if tp.stop_point is None else int(tp.stop_point),
+            'paused': bool(schd.is_paused),
+            'stop_mode': None if schd.stop_mode is None else schd.stop_mode.value,
+            'adds': sorted(getattr(self, 'adds', [])),
+            'removed': sorted(getattr(self, 'removed', []), key=lambda r: (r[0], r[1])),
+            'stall_at': getattr(self, 'stall_at', None),
         }
+        self.adds, self.removed, self.stall_at = [], [], None
         self.launched = []
         self.polls = []
+        self.msgs = []
+        self.trans = []
         return obs
 
     # -- ops -------------------------------------------------------------------
@@ -235,7 +367,15 @@ class Run:
             fn = getattr(commands, name)
             if 'tasks' in kwargs:
                 kwargs['tasks'] = list(kwargs['tasks'])
+            if name == 'stop':
+                from cylc.flow.workflow_status import StopMode
+                kwargs['mode'] = StopMode(kwargs['mode']) if kwargs.get('mode') else None
             await commands.run_cmd(fn(schd, **kwargs))
+        elif kind == 'restart':
+            # clean shutdown of the stopped scheduler, then a new Scheduler on the same run directory
+            await self.stop_scheduler()
+            self.stop_reason = None
+            await self.start(restart=True)
         else:
             raise ValueError(kind)
 
@@ -243,11 +383,25 @@ class Run:
     def next_op(self, rng, pol, step):
         """Choose the next op from the scheduler's visible state (seeded)."""
         schd = self.schd
+        if self.stop_reason is not None:
+            self.restarts_left -= 1
+            return {'op': 'restart'}
+        if pol.get('cmds') and rng.random() < pol.get('p_cmd', 0.0):
+            op = self.random_cmd(rng, pol)
+            if op is not None:
+                return op
         # register new launches as jobs
         cands = []
         for key, job in self.jobs.items():
             if job['next'] < len(job['plan']):
                 cands.append(key)
+        # poll results (C09/C10; off unless the policy sets p_poll / p_spoll)
+        if pol.get('p_spoll') and rng.random() < pol['p_spoll']:
+            self.spontaneous_poll(rng)
+        if pol.get('p_poll') and self.poll_reqs and rng.random() < pol['p_poll']:
+            op = self.answer_poll(pol)
+            if op is not None:
+                return op
         if cands and rng.random() < pol.get('p_msg', 0.6):
             key = rng.choice(sorted(cands))
             job = self.jobs[key]
@@ -271,8 +425,78 @@ class Run:
                 return {'op': 'msg', 'task': tid, 'msg': rng.choice(['started', 'succeeded', 'failed']), 'sn': key[2] - 1}
             later = [pl for k, pl in job['plan'][job['next']:] if k == 'msg']
             if later:
+                job['early_final'] = True
                 return {'op': 'msg', 'task': tid, 'msg': later[-1], 'sn': key[2]}
         return {'op': 'loop'}
+
+    def job_truth(self, key):
+        """What a poll of job (point, name, submit_num) reports now: the furthest status event emitted."""
+        job = self.jobs.get(tuple(key))
+        if job is None:
+            return None
+        plan = job['plan']
+        emitted = plan if job.get('early_final') else plan[:job['next']]
+        truth = 'submitted' if plan and plan[0][1] else 'submission failed'
+        for kind, payload in emitted:
+            if kind == 'msg' and payload in ('started', 'succeeded', 'failed'):
+                truth = payload
+        return truth
+
+    def request_poll(self, point, name):
+        itask = self.schd.pool._get_task_by_id(f'{point}/{name}')
+        if itask is None:
+            return
+        sn = itask.submit_num
+        truth = self.job_truth((point, name, sn))
+        if truth is not None:
+            self.poll_reqs.append((point, name, sn, truth))
+
+    def spontaneous_poll(self, rng):
+        """A routine poll (execution / submission polling interval) of some active job."""
+        active = [t for t in self.schd.pool.get_tasks()
+                  if t.state.status in ('submitted', 'running') and
+                  (int(t.point), t.tdef.name, t.submit_num) in self.jobs]
+        if active:
+            t = rng.choice(sorted(active, key=lambda t: (int(t.point), t.tdef.name)))
+            self.request_poll(int(t.point), t.tdef.name)
+
+    def answer_poll(self, pol):
+        """Deliver the oldest outstanding poll result: the job state when the poll ran
+        (policy poll_late: results may be overtaken by job messages) or the state now."""
+        point, name, sn, truth = self.poll_reqs.pop(0)
+        if not pol.get('poll_late'):
+            truth = self.job_truth((point, name, sn)) or truth
+        return {'op': 'poll', 'task': f'{point}/{name}', 'msg': truth, 'sn': sn}
+
+    def random_cmd(self, rng, pol):
+        g = self.graph
+        insts = [(int(p), n) for n, t in g['tasks'].items() for p in t['inst']]
+        if not insts:
+            return None
+        kind = rng.choice(pol['cmds'])
+        pts = list(range(g['icp'], g['fcp'] + 1))
+
+        def some_ids():
+            pooled = [(int(t.point), t.tdef.name) for t in self.schd.pool.get_tasks()]
+            src = pooled if pooled and rng.random() < 0.6 else insts
+            return sorted({f'{p}/{n}' for p, n in rng.sample(src, min(len(src), rng.randint(1, 2)))})
+        if kind in ('hold', 'release'):
+            return {'op': 'cmd', 'name': kind, 'args': {'tasks': some_ids()}}
+        if kind == 'set_hold_point':
+            return {'op': 'cmd', 'name': kind, 'args': {'point': str(rng.choice(pts))}}
+        if kind in ('release_hold_point', 'pause', 'resume'):
+            return {'op': 'cmd', 'name': kind, 'args': {}}
+        if kind == 'stop_point':
+            return {'op': 'cmd', 'name': 'stop', 'args': {'mode': None, 'cycle_point': str(rng.choice(pts))}}
+        if kind == 'stop_task':
+            p, n = rng.choice(insts)
+            return {'op': 'cmd', 'name': 'stop', 'args': {'mode': None, 'task': f'{p}/{n}'}}
+        if kind in ('stop_clean', 'stop_now', 'stop_now_now'):
+            if self.schd.stop_mode is not None or self.restarts_left <= 0:
+                return None
+            mode = {'stop_clean': 'REQUEST(CLEAN)', 'stop_now': 'REQUEST(NOW)', 'stop_now_now': 'REQUEST(NOW-NOW)'}[kind]
+            return {'op': 'cmd', 'name': 'stop', 'args': {'mode': mode}}
+        return None
 
     def plan_job(self, rng, pol, point, name, sn):
         """Outcome of one job, decided when it is launched."""
@@ -309,7 +533,9 @@ class Run:
             if self.schd is not None:
                 await self.shutdown()
             raise
+        self.restarts_left = pol.get('restarts', 0)
         try:
+            self.graph = extract_graph(self.schd, case)
             obs.append(self.observe())
             given = case.get('ops')
             max_steps = pol.get('max_steps', 150)
@@ -321,7 +547,7 @@ class Run:
                         break
                     op = given[step]
                 else:
-                    if step >= max_steps or self.stop_reason is not None:
+                    if step >= max_steps or (self.stop_reason is not None and self.restarts_left <= 0):
                         break
                     op = self.next_op(rng, pol, step)
                 step += 1
@@ -332,24 +558,31 @@ class Run:
                         'plan': self.plan_job(rng, pol, point, name, sn), 'next': 0}
                 ops_out.append(op)
                 obs.append(ob)
+                if pol.get('p_poll'):
+                    for point, name in ob['polls']:
+                        self.request_poll(point, name)
                 if given is None:
                     # stop early when nothing can happen any more
-                    busy = any(j['next'] < len(j['plan']) for j in self.jobs.values())
+                    busy = any(j['next'] < len(j['plan']) for j in self.jobs.values()) or (
+                        bool(pol.get('p_poll')) and bool(self.poll_reqs))
                     if op['op'] == 'loop' and not ob['launch'] and not busy and ob == obs[-2]:
                         idle_loops += 1
                         if idle_loops >= 2:
                             break
                     else:
                         idle_loops = 0
-            graph = extract_graph(self.schd, case)
+            graph = self.graph
         finally:
             await self.shutdown()
         return {'id': case['id'], 'ops': ops_out, 'obs': obs, 'graph': graph}
 
+    async def stop_scheduler(self):
+        async with asyncio.timeout(20):
+            await self.schd.shutdown(SchedulerStop(self.stop_reason or 'verif teardown'))
+
     async def shutdown(self):
         try:
-            async with asyncio.timeout(10):
-                await self.schd.shutdown(SchedulerStop('verif teardown'))
+            await self.stop_scheduler()
         except Exception:
             pass
         shutil.rmtree(Path(_SCRATCH) / 'cylc-run' / self.id, ignore_errors=True)
@@ -421,6 +654,7 @@ def extract_graph(schd, case):
         'runahead': str(cfg.runahead_limit),
         'tasks': tasks, 'order': list(schd.pool.task_name_list), 'seqs': seqs,
         'stop_point': None if schd.pool.stop_point is None else int(schd.pool.stop_point),
+        'cfg_stop': None if cfg.stop_point is None else int(cfg.stop_point),
     }
 
 
